@@ -139,6 +139,8 @@ var kC07Str = register(&Kind[c07Str]{
 				}
 			}
 			s = s[:i] + string([]byte{fc}) + s[i+1:]
+		} else if rapid.IntRange(0, 5).Draw(t, "alias") == 0 {
+			s = aliasChar(t, s)
 		}
 		return c07Str{S: s}
 	},
@@ -400,6 +402,8 @@ var kC07BechStr = register(&Kind[c07BechStr]{
 		case 7: // foreign data character
 			i := rapid.IntRange(len(hrp)+1, len(b)-1).Draw(t, "i")
 			b[i] = "bio"[rapid.IntRange(0, 2).Draw(t, "f")]
+		case 8: // alias of one character
+			b = []byte(aliasChar(t, string(b)))
 		default: // unmodified
 		}
 		return c07BechStr{S: string(b)}
@@ -634,12 +638,12 @@ func TestC07(t *testing.T) {
 		// exhaustive small scopes, split over shards
 		exhaustiveC07(ev)
 
-		kC07Bytes.Run(t, ev, perShard(pick(6000, 600000)))
-		kC07Str.Run(t, ev, perShard(pick(4000, 400000)))
-		kC07Check.Run(t, ev, perShard(pick(4000, 400000)))
-		kC07Bech.Run(t, ev, perShard(pick(3000, 300000)))
-		kC07BechStr.Run(t, ev, perShard(pick(4000, 400000)))
-		kC07Conv.Run(t, ev, perShard(pick(6000, 600000)))
+		kC07Bytes.Run(t, ev, perShard(pick(6000, 3000000)))
+		kC07Str.Run(t, ev, perShard(pick(4000, 2000000)))
+		kC07Check.Run(t, ev, perShard(pick(4000, 2000000)))
+		kC07Bech.Run(t, ev, perShard(pick(3000, 1500000)))
+		kC07BechStr.Run(t, ev, perShard(pick(4000, 2000000)))
+		kC07Conv.Run(t, ev, perShard(pick(6000, 3000000)))
 		ev.requireClasses("b58bytes:cap>len", "b58bytes:lz>0", "b58str:foreign", "b58check:accepted",
 			"b58check:rejected", "bech32enc:cap>len", "bech32enc:len=90", "bech32dec:accepted",
 			"convertbits:nonzero-tail", "convertbits:5->8", "convertbits:8->5")
